@@ -13,8 +13,14 @@ from vsym.runner import Ob
 from vsym import catalogue
 
 RULES = ("nesting.excessive-depth", "srp.violation", "magic-numbers.numeric-literal")
-TEXTS = ("plain", 'quote " and \\ backslash', "non-ascii é 日本 ✓", "two\nlines", "tab\tx")
-PATHS = ("src/a.py", "dir with space/é.py", "/abs/x.ts")
+TEXTS = ("plain", 'quote " and \\ backslash', "non-ascii é 日本 ✓", "two\nlines", "tab\tx", "bad byte \udcff in a name")
+PATHS = ("src/a.py", "dir with space/é.py", "/abs/x.ts", "dir/bad\udcff.py")
+
+
+def _shown(text):
+    """What every rendering shows for text taken from undecodable file names / contents (surrogate-escaped
+    bytes cannot be written as UTF-8): the same replacement in all three formats."""
+    return text.encode("utf-8", errors="surrogateescape").decode("utf-8", errors="replace")
 
 
 class _Rec:
@@ -68,11 +74,18 @@ def h_formatters(ctx):
     else:
         jdoc, sdoc = json.loads("\n".join(j_out)), json.loads("\n".join(s_out))
         ctx.require("json-utf8", "\n".join(j_out).encode("utf-8") is not None)
+        sarif_text = json.dumps(sdoc, ensure_ascii=False)
+        try:
+            sarif_text.encode("utf-8")
+            sarif_ok = True
+        except UnicodeEncodeError:
+            sarif_ok = False
+        ctx.require("sarif-is-representable-as-utf8", sarif_ok)
     # ---- JSON
     ctx.require("json-total", Eq(jdoc["total"], n))
     ctx.require("json-count", len(jdoc["violations"]) == n)
     for (rid, path, line, col, msg), d in zip(spec, jdoc["violations"]):
-        ctx.require("json-fields", And(d["rule_id"] == rid, d["file_path"] == path, d["message"] == msg,
+        ctx.require("json-fields", And(d["rule_id"] == rid, d["file_path"] == _shown(path), d["message"] == _shown(msg),
                                        Eq(d["line"], line), Eq(d["column"], col)))
     # ---- SARIF
     ctx.require("sarif-version", sdoc.get("version") == "2.1.0")
@@ -84,7 +97,7 @@ def h_formatters(ctx):
     for (rid, path, line, col, msg), r in zip(spec, run["results"]):
         reg = r["locations"][0]["physicalLocation"]["region"]
         uri = r["locations"][0]["physicalLocation"]["artifactLocation"]["uri"]
-        ctx.require("sarif-fields", And(r["ruleId"] == rid, r["message"]["text"] == msg, uri == path))
+        ctx.require("sarif-fields", And(r["ruleId"] == rid, r["message"]["text"] == _shown(msg), uri == _shown(path)))
         ctx.require("sarif-ruleid-declared", r["ruleId"] in declared)
         ctx.require("sarif-1-based", And(Eq(reg["startLine"], line), Eq(reg["startColumn"], col + 1),
                                          reg["startLine"] >= 1, reg["startColumn"] >= 1))
@@ -101,9 +114,9 @@ def h_formatters(ctx):
                 col_nonzero = bool(col != 0)   # the branch the real code took is now in the pc
             else:
                 col_nonzero = col != 0
-            want = f"{path}:{line}" + (f":{col}" if col_nonzero else "")
+            want = f"{_shown(path)}:{line}" + (f":{col}" if col_nonzero else "")
             ctx.require("text-location", loc == want, got=loc, want=want)
-            ctx.require("text-rule-and-message", f"{rid}: {msg}" in text)
+            ctx.require("text-rule-and-message", f"{rid}: {_shown(msg)}" in text)
     ctx.cover("n=%d" % n)
 
 
